@@ -44,6 +44,14 @@ def _conc(e):
     return None
 
 
+def _num(t):
+    """python int when the term is a numeral, else the simplified term"""
+    if isinstance(t, int):
+        return t
+    c = _conc(t)
+    return c if c is not None else _simp(t)
+
+
 class Seg:
     sliceable = False
 
@@ -68,13 +76,13 @@ class Raw(Seg):
         return bytes_lit(self.data)
 
     def sub(self, I, a, b):
-        a, b = _conc(a), _conc(b)
+        a, b = I.concretize(_zi(a)), I.concretize(_zi(b))
         if a is None or b is None:
             raise Unsupported("symbolic offset inside concrete bytes")
         return Raw(self.data[a:b])
 
     def byte(self, I, i):
-        c = _conc(i)
+        c = I.concretize(_zi(i))
         if c is None:
             raise Unsupported("symbolic index into concrete bytes")
         return self.data[c]
@@ -96,7 +104,7 @@ class UInt(Seg):
         return z3.Concat(bs) if len(bs) > 1 else bs[0]
 
     def byte(self, I, i):
-        c = _conc(i)
+        c = I.concretize(_zi(i))
         if c is None:
             raise Unsupported("symbolic index into packed integer")
         k = self.n - 1 - c
@@ -109,23 +117,26 @@ class UInt(Seg):
 class Slice(Seg):
     sliceable = True
 
-    def __init__(self, base, a, b):
+    def __init__(self, base, a, b, pred=None):
         self.base = base
         self.a = _simp(a)
         self.b = _simp(b)
+        self.pred = pred          # element predicate of the base (instantiated at every element read)
 
     def width(self):
-        return _simp(self.b - self.a)
+        return _num(self.b - self.a)
 
     def to_z3(self):
         return z3.SubSeq(self.base, self.a, self.b - self.a)
 
     def sub(self, I, a, b):
-        return Slice(self.base, self.a + _zi(a), self.a + _zi(b))
+        return Slice(self.base, self.a + _zi(a), self.a + _zi(b), self.pred)
 
     def byte(self, I, i):
         el = self.base[_simp(self.a + _zi(i))]
         I.assume(z3.And(el >= 0, el <= 255))
+        if self.pred is not None:
+            I.assume(self.pred(el))
         return SV(el, "int")
 
     def __repr__(self):
@@ -133,10 +144,16 @@ class Slice(Seg):
 
 
 class Blob(Seg):
+    """arbitrary symbolic bytes.  `pred` (optional): a well-formedness predicate that holds for EVERY element
+    (a universally quantified assumption, instantiated at each element that is actually read); `trimmed`: the
+    value neither starts nor ends with a space (canonical AE title)."""
     sliceable = True
 
-    def __init__(self, e):
+    def __init__(self, e, pred=None, trimmed=False, tag=None):
         self.e = e
+        self.pred = pred
+        self.trimmed = trimmed
+        self.tag = tag
 
     def width(self):
         return z3.Length(self.e)
@@ -145,16 +162,46 @@ class Blob(Seg):
         return self.e
 
     def sub(self, I, a, b):
-        a, b = _zi(a), _zi(b)
-        return Blob(z3.SubSeq(self.e, a, b - a))
+        return Slice(self.e, _zi(a), _zi(b), self.pred)
 
     def byte(self, I, i):
         el = self.e[_zi(i)]
         I.assume(z3.And(el >= 0, el <= 255))
+        if self.pred is not None:
+            I.assume(self.pred(el))
         return SV(el, "int")
 
     def __repr__(self):
         return f"Blob({self.e})"
+
+
+class Fill(Seg):
+    """n copies of one byte value (padding)"""
+    sliceable = True
+
+    def __init__(self, n, value):
+        self.n = _simp(n)
+        self.value = value
+
+    def width(self):
+        c = _conc(self.n)
+        return c if c is not None else self.n
+
+    def to_z3(self):
+        c = _conc(self.n)
+        if c is not None:
+            from .smt import bytes_lit
+            return bytes_lit(bytes([self.value]) * c)
+        raise Unsupported("symbolic-width padding has no closed sequence form")
+
+    def sub(self, I, a, b):
+        return Fill(_zi(b) - _zi(a), self.value)
+
+    def byte(self, I, i):
+        return self.value
+
+    def __repr__(self):
+        return f"Fill({self.n} x {self.value:#x})"
 
 
 class LB:
@@ -177,7 +224,7 @@ class LB:
                 return
             if isinstance(last, Slice) and isinstance(s, Slice) and last.base.eq(s.base) \
                     and _simp(last.b - s.a).eq(z3.IntVal(0)):
-                self.segs[-1] = Slice(last.base, last.a, s.b)
+                self.segs[-1] = Slice(last.base, last.a, s.b, last.pred)
                 return
         self.segs.append(s)
 
@@ -202,7 +249,7 @@ class LB:
             if out.segs and isinstance(out.segs[-1], Slice) and isinstance(s, Slice) and out.segs[-1].base.eq(s.base) \
                     and I.valid(out.segs[-1].b == s.a):
                 last = out.segs[-1]
-                out.segs[-1] = Slice(last.base, last.a, s.b)
+                out.segs[-1] = Slice(last.base, last.a, s.b, last.pred)
             else:
                 out._push(s)
         return out
@@ -212,14 +259,14 @@ class LB:
         t = 0
         for s in self.segs:
             t = t + s.width()
-        return t if isinstance(t, int) else _simp(t)
+        return _num(t)
 
     def bounds(self):
         out = [0]
         t = 0
         for s in self.segs:
             t = t + s.width()
-            out.append(t if isinstance(t, int) else _simp(t))
+            out.append(_num(t))
         return out
 
     def to_z3(self):
@@ -267,6 +314,43 @@ class LB:
             return self.segs[0].data == o.segs[0].data
         if not self.segs and not o.segs:
             return True
+        if isinstance(a, int) and isinstance(b, int) and a == b and a <= 4:
+            # short values: compare byte by byte through the segment accessors (instantiates element predicates)
+            parts = []
+            for i in range(a):
+                x, y = self.sym_index(I, i), o.sym_index(I, i)
+                parts.append(_zi(x) == _zi(y))
+            return z3.And(parts) if len(parts) > 1 else parts[0]
+        if isinstance(a, int) and not isinstance(b, int) or isinstance(b, int) and not isinstance(a, int):
+            # lengths may differ
+            return z3.And(_zi(a) == _zi(b), self._seq_eq(I, o))
+        return self._seq_eq(I, o)
+
+    def _seq_eq(self, I, o):
+        # segment-wise when both sides have the same shape
+        if len(self.segs) == len(o.segs) and all(type(x) is type(y) for x, y in zip(self.segs, o.segs)):
+            parts = []
+            ok = True
+            for x, y in zip(self.segs, o.segs):
+                wx, wy = _zi(x.width()), _zi(y.width())
+                if not (wx.eq(wy) or I.valid(wx == wy)):
+                    ok = False          # boundaries do not line up: fall back to sequence equality
+                    break
+                if isinstance(x, UInt) and x.n == y.n:
+                    parts.append(x.e == y.e)
+                elif isinstance(x, Raw):
+                    if len(x.data) != len(y.data):
+                        return False
+                    parts.append(z3.BoolVal(x.data == y.data))
+                elif isinstance(x, Fill):
+                    parts.append(z3.And(_zi(x.n) == _zi(y.n), z3.BoolVal(x.value == y.value)))
+                elif isinstance(x, (Blob, Slice)):
+                    parts.append(x.to_z3() == y.to_z3())
+                else:
+                    ok = False
+                    break
+            if ok:
+                return z3.And(parts) if len(parts) > 1 else parts[0]
         return self.to_z3() == o.to_z3()
 
     # ---- element / slice
@@ -356,7 +440,7 @@ class LB:
             else:
                 if not seg.sliceable:
                     if isinstance(seg, UInt):
-                        lo_c, hi_c = _conc(_zi(cur_lo)), _conc(_zi(piece_hi))
+                        lo_c, hi_c = I.concretize(_zi(cur_lo)), I.concretize(_zi(piece_hi))
                         if lo_c is None or hi_c is None:
                             raise Unsupported("symbolic cut inside a packed integer")
                         for j in range(lo_c, hi_c):
